@@ -154,7 +154,14 @@ def run_stitch(case, ctx):
     rev = case.get('decreasing')
     arg_series = live[::-1] if rev else live
     arg_ubs = ubs[::-1] if rev else ubs
-    st, res = ctx.call(df_slice, list(arg_series), None, list(arg_ubs), '(]', n) if case.get('explicit_oc') else ctx.call(df_slice, list(arg_series), ub=list(arg_ubs), n=n)
+    ser_list, ub_list = list(arg_series), list(arg_ubs)
+    st, res = ctx.call(df_slice, ser_list, None, ub_list, '(]', n) if case.get('explicit_oc') else ctx.call(df_slice, ser_list, ub=ub_list, n=n)
+    unch = ub_list == list(arg_ubs) and len(ser_list) == len(arg_series) and all(a is b for a, b in zip(ser_list, arg_series))
+    ctx.check('input_unmodified', unch, lambda: 'df_slice edited the caller\'s bound list / series list in place: %s -> %s' % (arg_ubs, ub_list))
+    if st == 'ok' and unch:
+        st_b, res_b = ctx.call(df_slice, ser_list, None, ub_list, '(]', n) if case.get('explicit_oc') else ctx.call(df_slice, ser_list, ub=ub_list, n=n)
+        same2 = st_b == 'ok' and type(res_b) is type(res) and len(rows_of(res_b)) == len(rows_of(res)) and all(x[0] == y[0] and req(x[1], y[1]) for x, y in zip(rows_of(res_b), rows_of(res)))
+        ctx.check('stitch_model', same2, lambda: 'the same call with the same list objects gives a different stitch the second time')
     exp, cnt = model_stitch(srows, ubs, n)
     what = 'df_slice(%d series, ub=%s%s, n=%d)' % (k, [u.strftime('%d %H') for u in ubs], ' (given in decreasing order)' if rev else '', n)
     if st != 'ok':
@@ -237,6 +244,8 @@ def gen_case(rng):
         k = rng.choice([1, 1, 2, 3])
         spec = {'ts': ts, 'cols': [[float(next(ids)) if rng.random() > 0.1 else None for _ in ts] for _ in range(k)], 'frame': k > 1 or rng.random() < 0.2}
         lb, ub = gen_bound(rng, ts, grid, span), gen_bound(rng, ts, grid, span)
+        if rng.random() < 0.12 and lb is not None:
+            ub = dict(lb)    # degenerate window lb == ub
         return {'kind': 'slice', 'grid': grid, 'x': spec, 'lb': lb, 'ub': ub, 'oc': rng.choice(['()', '(]', '[)', '[]', None, 'oc', 'cc']), 'tuple_form': rng.random() < 0.1}
     if r < 0.7:
         ts = sorted(rng.sample(range(72), rng.randint(1, 30)))
